@@ -413,3 +413,58 @@ class MergeKeyMask:
 
     def ensures_merged_entry_is_well_formed(result):
         return well_formed(result[0], result[1])
+
+
+# ---- minimise_tables: one chip of the loop (fragment) ------------------------------------------------------------------
+from pyvc.values import ListV as _ListV, NONE as _NONE   # noqa: E402
+
+
+def _lengths_getitem(E, obj, args, kwargs, st, node):
+    s = st.copy()
+    s.trace = _ListV(s.trace.items + (("target_of", args[0]),))
+    return [(s, st.env["g_target"], None)]
+
+
+def _minimise_table_ext(E, args, kwargs, st, node):
+    """minimise_table(table, target, methods) (its own contract: MinimiseTable): the call is recorded; it returns the ghost
+    table g_new or raises MinimisationFailedError"""
+    from pyvc.engine import Raised
+    s = st.copy()
+    s.trace = _ListV(s.trace.items + (("minimise_table",) + tuple(args),))
+    ok = s.assume(z3.Not(st.env["g_fail"]))
+    bad = s.assume(st.env["g_fail"])
+    return [(ok, st.env["g_new"]), (bad, Raised(_ExcV("MinimisationFailedError", (args[1], 0))))]
+
+
+def _tables_setitem(E, obj, args, kwargs, st, node):
+    s = st.copy()
+    s.trace = _ListV(s.trace.items + (("store",) + tuple(args),))
+    return [(s, _NONE, None)]
+
+
+@contract("rig/routing_table/minimise.py::minimise_tables@forbody:0")
+class MinimiseTablesStep:
+    """one chip: ITS table is minimised with ITS target and the methods given - every chip on its own, whatever other chips
+    carry - and the result is stored for that chip exactly when it is not empty"""
+    properties = ("C04",)
+    params = dict(chip=TTuple(TInt(0, 255), TInt(0, 255)), table=ANYTABLE, lengths=_TRec("Lengths"), methods=TInt(), new_tables=_TRec("Dict"),
+                  g_target=TOpt(TInt(0, None)), g_new=ANYTABLE, g_fail=TBool())
+    fragment_result = ()
+    fragment_head = "for chip, table in iteritems(routing_tables):"
+    externals = {"Lengths.__getitem__": _lengths_getitem, "def:minimise_table": _minimise_table_ext, "Dict.__setitem__": _tables_setitem}
+    raises = {"MinimisationFailedError": None}
+    assumptions = ["minimise_table is external here (contract MinimiseTable); the per-chip target lookup and the result dict are recorded"]
+
+    def native(chip):
+        raise __import__("pyvc.replay", fromlist=["OutsideHarness"]).OutsideHarness()
+
+    def raises_MinimisationFailedError(chip, g_fail, exc_chip):
+        return g_fail and exc_chip == chip          # the failure names this chip
+
+    def ensures_this_chips_table_is_minimised_with_this_chips_target(chip, table, methods, g_target, g_new, g_fail, _trace):
+        return (not g_fail and len(_trace) >= 2 and _trace[0] == ("target_of", chip)
+                and _trace[1] == ("minimise_table", table, g_target, methods))
+
+    def ensures_stored_for_this_chip_unless_empty(chip, g_new, _trace):
+        return ((seq_len(g_new) == 0 and len(_trace) == 2)
+                or (seq_len(g_new) > 0 and len(_trace) == 3 and _trace[2] == ("store", chip, g_new)))
